@@ -33,6 +33,9 @@ struct Table {
     used: usize, // live + quarantined + tombstones
     quar: usize,
     tombs: usize,
+    // bases of the quarantined blocks, in order of release
+    qlist: *mut usize,
+    qcap: usize,
 }
 
 struct Global {
@@ -43,7 +46,7 @@ unsafe impl Sync for Global {}
 
 static G: Global = Global {
     lock: AtomicBool::new(false),
-    table: std::cell::UnsafeCell::new(Table { ptr: std::ptr::null_mut(), cap: 0, used: 0, quar: 0, tombs: 0 }),
+    table: std::cell::UnsafeCell::new(Table { ptr: std::ptr::null_mut(), cap: 0, used: 0, quar: 0, tombs: 0, qlist: std::ptr::null_mut(), qcap: 0 }),
 };
 
 /// Quarantine on/off (on during a run).
@@ -233,6 +236,31 @@ pub fn take_violation() -> Option<AllocViolation> {
     Some(v)
 }
 
+#[inline]
+unsafe fn all_poison(p: *const u8, size: usize) -> bool {
+    let mut k = 0;
+    while k < size && (p.add(k) as usize) % 8 != 0 {
+        if *p.add(k) != POISON {
+            return false;
+        }
+        k += 1;
+    }
+    const W: u64 = u64::from_ne_bytes([POISON; 8]);
+    while k + 8 <= size {
+        if *(p.add(k) as *const u64) != W {
+            return false;
+        }
+        k += 8;
+    }
+    while k < size {
+        if *p.add(k) != POISON {
+            return false;
+        }
+        k += 1;
+    }
+    true
+}
+
 pub struct SimAlloc;
 
 unsafe impl GlobalAlloc for SimAlloc {
@@ -275,8 +303,22 @@ unsafe impl GlobalAlloc for SimAlloc {
                     N_FREE.fetch_add(1, Ordering::Relaxed);
                     if q {
                         e.state = QUAR;
-                        t.quar += 1;
                         std::ptr::write_bytes(ptr, POISON, real.size());
+                        if t.quar == t.qcap {
+                            let ncap = if t.qcap == 0 { 4096 } else { t.qcap * 2 };
+                            let np = System.alloc(Layout::array::<usize>(ncap).unwrap()) as *mut usize;
+                            if np.is_null() {
+                                std::process::abort();
+                            }
+                            if !t.qlist.is_null() {
+                                std::ptr::copy_nonoverlapping(t.qlist, np, t.quar);
+                                System.dealloc(t.qlist as *mut u8, Layout::array::<usize>(t.qcap).unwrap());
+                            }
+                            t.qlist = np;
+                            t.qcap = ncap;
+                        }
+                        *t.qlist.add(t.quar) = ptr as usize;
+                        t.quar += 1;
                         return;
                     } else {
                         e.state = TOMB;
@@ -306,26 +348,22 @@ pub fn end_run() -> usize {
         if t.quar == 0 {
             return 0;
         }
-        for i in 0..t.cap {
-            let e = &mut *t.ptr.add(i);
-            if e.state == QUAR {
-                let p = e.base as *const u8;
-                let mut ok = true;
-                for k in 0..e.size {
-                    if *p.add(k) != POISON {
-                        ok = false;
-                        break;
-                    }
-                }
-                if !ok {
-                    record_violation(V_WRITE_AFTER_FREE, e.base, 0, 0, e.size, e.align, e.tag);
-                }
-                System.dealloc(e.base as *mut u8, Layout::from_size_align_unchecked(e.size, e.align));
-                e.state = TOMB;
-                t.tombs += 1;
-                n += 1;
+        let nq = t.quar;
+        for qi in 0..nq {
+            let base = *t.qlist.add(qi);
+            let Some(e) = t.find(base) else { continue };
+            if e.state != QUAR {
+                continue;
             }
+            if !all_poison(e.base as *const u8, e.size) {
+                record_violation(V_WRITE_AFTER_FREE, e.base, 0, 0, e.size, e.align, e.tag);
+            }
+            let (b, s, a) = (e.base, e.size, e.align);
+            e.state = TOMB;
+            System.dealloc(b as *mut u8, Layout::from_size_align_unchecked(s, a));
+            n += 1;
         }
+        t.tombs += n;
         t.quar = 0;
     }
     n
@@ -369,10 +407,7 @@ pub fn poison_intact(base: usize) -> bool {
         let _g = Guard::lock();
         let t = &mut *G.table.get();
         match t.find(base) {
-            Some(e) if e.state == QUAR => {
-                let p = e.base as *const u8;
-                (0..e.size).all(|k| *p.add(k) == POISON)
-            }
+            Some(e) if e.state == QUAR => all_poison(e.base as *const u8, e.size),
             _ => true,
         }
     }
